@@ -3,6 +3,8 @@ import Fundraising.Proofs.EscrowBasic
   C01: the message handlers and keeper-API calls keep the escrow accounting of the
   auction they work on and touch no other auction's escrows.
 -/
+set_option linter.unusedSimpArgs false
+set_option linter.unusedVariables false
 namespace Fundraising
 
 theorem status_of_beq {a b : Status} (h : (a == b) = true) : a = b := by
@@ -38,5 +40,325 @@ theorem cancel_good {c c' : Ctx} {signer : Acc} {aid : Nat}
     · intro d; left
       simp only [slackVest, owedVest, setView_bank, h2, h1, move_apply, hst]
       simp
+
+/-! ### PlaceBid -/
+
+theorem reservedTotal_append {v v' : AView} {b : Bid} (hp : v'.a.payDenom = v.a.payDenom)
+    (hb : v'.bids = v.bids ++ [b]) : reservedTotal v' = reservedTotal v + b.toPaying v.a.payDenom := by
+  simp [reservedTotal, hp, hb, List.sum_append]
+
+theorem place_good {c c' : Ctx} {bidder : Acc} {aid : Nat} {t : BidType} {price : Dec} {denom : Denom}
+    {amt : Int} (h : placeBid c bidder aid t price denom amt = .ok c') : Good aid c.s c'.s := by
+  unfold placeBid at h
+  simp only [bind_ok, check_ok, view_ok_iff, pure_ok] at h
+  obtain ⟨v, hv, _, hst, _, _, h⟩ := h
+  have hst := status_of_beq hst
+  split at h
+  · rename_i ab _
+    simp only [bind_ok, check_ok, view_ok_iff, pure_ok] at h
+    obtain ⟨_, rfl, c1, hfee, ⟨c2, a', bid'⟩, hin, c3, hhk, rfl⟩ := h
+    have key : ∃ P, c2.s = { c1.s with bank := c1.s.bank.move (.user bidder) (.pay aid) v.a.payDenom P } ∧
+        a'.status = v.a.status ∧ a'.sellDenom = v.a.sellDenom ∧ a'.payDenom = v.a.payDenom ∧
+        a'.sellAmt = v.a.sellAmt ∧ bid'.toPaying v.a.payDenom = P := by
+      cases t with
+      | fixed =>
+        simp only [bind_ok, check_ok, pure_ok] at hin
+        obtain ⟨_, _, _, _, _, _, _, _, _, _, coins, hmk, c2', hbc, heq⟩ := hin
+        cases heq
+        obtain ⟨_, h1⟩ := send_mk hmk hbc
+        exact ⟨_, h1, rfl, rfl, rfl, rfl, rfl⟩
+      | worth =>
+        simp only [bind_ok, check_ok, pure_ok] at hin
+        obtain ⟨_, _, _, hd, _, _, coins, hmk, c2', hbc, heq⟩ := hin
+        cases heq
+        have hd : denom = v.a.payDenom := by simpa using hd
+        subst hd
+        obtain ⟨_, h1⟩ := send_mk hmk hbc
+        exact ⟨_, h1, rfl, rfl, rfl, rfl, by simp [Bid.toPaying]⟩
+      | many =>
+        simp only [bind_ok, check_ok, pure_ok] at hin
+        obtain ⟨_, _, _, _, _, _, coins, hmk, c2', hbc, heq⟩ := hin
+        cases heq
+        obtain ⟨_, h1⟩ := send_mk hmk hbc
+        exact ⟨_, h1, rfl, rfl, rfl, rfl, rfl⟩
+    obtain ⟨P, h2, hs, hsd, hpd, hsa, hP⟩ := key
+    obtain ⟨b1, h1, hb1⟩ := fee_core hfee
+    obtain ⟨h3, _⟩ := hook_ok hhk
+    simp only at h3
+    refine good_of_set hv (by rw [setView_views, h3, h2, h1]) ?_ ?_
+    · intro x j hx hj d
+      rw [setView_bank, h3, h2, h1]
+      simp only [move_apply]
+      simp [esc_ne_pay hx hj, esc_ne_user hx, hb1 x j hx d]
+    · intro _
+      refine ⟨hsd, hpd, ?_, ?_, ?_⟩
+      · intro d; left
+        simp only [slackSell, owedSell, setView_bank, h3, h2, h1, move_apply, hs, hsd, hsa,
+          hb1 (.sell aid) aid rfl d]
+        simp
+      · intro d; left
+        have hr := reservedTotal_append (v := v) (b := bid')
+          (v' := { a := a', allowed := v.allowed, bids := v.bids ++ [bid'], vqs := v.vqs,
+                   matchedLen := v.matchedLen, bidSeq := v.bidSeq + 1 }) hpd rfl
+        simp only [slackPay, owedPay, setView_bank, h3, h2, h1, move_apply, hs, hpd, hst,
+          hb1 (.pay aid) aid rfl d, hr, hP]
+        by_cases hd : d = v.a.payDenom
+        · simp [hd]; omega
+        · simp [hd]
+      · intro d; left
+        simp only [slackVest, owedVest, setView_bank, h3, h2, h1, move_apply, hs, hpd, hst,
+          hb1 (.vest aid) aid rfl d]
+        simp
+  · simp only [bind_ok, fail_ok] at h
+    obtain ⟨_, h, _⟩ := h
+    exact h.elim
+
+/-! ### ModifyBid -/
+
+theorem ceil_mul (x : Dec) : ∃ k, Dec.ceil x = k * PREC := by
+  unfold Dec.ceil
+  simp only
+  split
+  · exact ⟨_, rfl⟩
+  · split <;> exact ⟨_, rfl⟩
+
+theorem truncInt_ceil_sub (x y : Dec) :
+    Dec.truncInt (Dec.ceil x - Dec.ceil y) = Dec.truncInt (Dec.ceil x) - Dec.truncInt (Dec.ceil y) := by
+  obtain ⟨a, ha⟩ := ceil_mul x
+  obtain ⟨b, hb⟩ := ceil_mul y
+  rw [ha, hb]
+  unfold Dec.truncInt
+  rw [← Int.sub_mul, Int.mul_tdiv_cancel _ (by decide), Int.mul_tdiv_cancel _ (by decide),
+    Int.mul_tdiv_cancel _ (by decide)]
+
+theorem map_replace_id (id : Nat) (b' : Bid) : ∀ (l : List Bid), (∀ y ∈ l, y.id ≠ id) →
+    l.map (fun x => if x.id == id then b' else x) = l := by
+  intro l
+  induction l with
+  | nil => intro _; rfl
+  | cons x xs ih =>
+    intro h
+    have hx : x.id ≠ id := h x (by simp)
+    simp only [List.map_cons]
+    rw [ih (fun y hy => h y (List.mem_cons_of_mem _ hy))]
+    simp [hx]
+
+theorem sum_map_replace (f : Bid → Int) (id : Nat) (b b' : Bid) : ∀ (l : List Bid),
+    (l.map (·.id)).Pairwise (· ≠ ·) → b ∈ l → b.id = id →
+    ((l.map (fun x => if x.id == id then b' else x)).map f).sum = (l.map f).sum + f b' - f b := by
+  intro l
+  induction l with
+  | nil => intro _ hb; cases hb
+  | cons x xs ih =>
+    intro hnd hb hid
+    rw [List.map_cons, List.pairwise_cons] at hnd
+    by_cases hx : x.id = id
+    · have hxb : b = x := by
+        rcases List.mem_cons.mp hb with e | e
+        · exact e
+        · exact absurd (hid.trans hx.symm).symm (hnd.1 b.id (List.mem_map.mpr ⟨b, e, rfl⟩))
+      subst hxb
+      have hrest : ∀ y ∈ xs, y.id ≠ id := by
+        intro y hy e
+        exact hnd.1 y.id (List.mem_map.mpr ⟨y, hy, rfl⟩) (hx.trans e.symm)
+      simp only [List.map_cons, List.sum_cons]
+      rw [map_replace_id id b' xs hrest]
+      simp [hx]; omega
+    · have hb' : b ∈ xs := by
+        rcases List.mem_cons.mp hb with e | e
+        · subst e; exact absurd hid hx
+        · exact e
+      simp only [List.map_cons, List.sum_cons]
+      rw [ih hnd.2 hb' hid]
+      simp [hx]; omega
+
+theorem bidIds_pairwise {l : List Bid} (h : l.map (·.id) = (List.range l.length).map (· + 1)) :
+    (l.map (·.id)).Pairwise (· ≠ ·) := by
+  rw [h, List.pairwise_map]
+  exact List.Pairwise.imp (fun hab => by omega) List.pairwise_lt_range
+
+theorem modify_good {c c' : Ctx} {bidder : Acc} {aid bidId : Nat} {price : Dec} {denom : Denom}
+    {amt : Int} (h : modifyBid c bidder aid bidId price denom amt = .ok c') : Good aid c.s c'.s := by
+  unfold modifyBid at h
+  simp only [bind_ok, check_ok, view_ok_iff, pure_ok] at h
+  obtain ⟨v, hv, _, hst, _, hty, h⟩ := h
+  have hst := status_of_beq hst
+  split at h
+  · rename_i bid hfind
+    simp only [bind_ok, check_ok, view_ok_iff, pure_ok] at h
+    obtain ⟨_, rfl, _, _, _, _, _, hden, _, hge, _, _, c1, hin, c2, hhk, rfl⟩ := h
+    have hden : bid.denom = denom := by simpa using hden
+    have hty : v.a.type = .batch := by simpa using hty
+    have hmem : bid ∈ v.bids := List.mem_of_find?_eq_some hfind
+    have hbid : bid.id = bidId := by simpa using List.find?_some hfind
+    obtain ⟨bid', hbid'⟩ : ∃ b : Bid, b = { bid with price := price, amt := amt } := ⟨_, rfl⟩
+    have key : ∃ dd D, c1.s = { c.s with bank := c.s.bank.move (.user bidder) (.pay aid) dd D } ∧
+        (ViewWF aid v → (dd = v.a.payDenom ∨ D = 0) ∧
+          bid'.toPaying v.a.payDenom = bid.toPaying v.a.payDenom + D) := by
+      cases hbt : bid.type with
+      | worth =>
+        rw [hbt] at hin
+        simp only at hin
+        have hw : ViewWF aid v → bid.denom = v.a.payDenom := by
+          intro w
+          rcases (w.bids bid hmem).batch hty with ⟨_, h2⟩ | ⟨h1, _⟩
+          · exact h2
+          · rw [hbt] at h1; cases h1
+        by_cases hpos : amt - bid.amt > 0
+        · rw [if_pos hpos] at hin
+          refine ⟨denom, amt - bid.amt, send_single hin, fun w => ⟨Or.inl (hden ▸ hw w), ?_⟩⟩
+          subst hbid'
+          simp [Bid.toPaying, hw w]; omega
+        · rw [if_neg hpos, pure_ok] at hin
+          subst hin
+          refine ⟨denom, 0, by rw [move_zero], fun w => ⟨Or.inr rfl, ?_⟩⟩
+          subst hbid'
+          simp only [Bool.not_eq_true', Bool.or_eq_false_iff, decide_eq_false_iff_not] at hge
+          simp [Bid.toPaying, hw w]; omega
+      | many =>
+        rw [hbt] at hin
+        simp only at hin
+        have hw : ViewWF aid v → bid.denom ≠ v.a.payDenom := by
+          intro w
+          rcases (w.bids bid hmem).batch hty with ⟨h1, _⟩ | ⟨_, h2⟩
+          · rw [hbt] at h1; cases h1
+          · rw [h2]; exact w.auction.denomNe
+        have htp : ∀ w : ViewWF aid v, bid'.toPaying v.a.payDenom = bid.toPaying v.a.payDenom +
+            (((Dec.ofInt amt).mul price).ceil - ((Dec.ofInt bid.amt).mul bid.price).ceil).truncInt := by
+          intro w
+          subst hbid'
+          rw [truncInt_ceil_sub]
+          simp only [Bid.toPaying, hw w, if_false]
+          omega
+        split at hin
+        · exact (fail_ok.mp hin).elim
+        · split at hin
+          · exact ⟨_, _, send_single hin, fun w => ⟨Or.inl rfl, htp w⟩⟩
+          · rw [pure_ok] at hin
+            subst hin
+            have h0 : (((Dec.ofInt amt).mul price).ceil - ((Dec.ofInt bid.amt).mul bid.price).ceil).truncInt = 0 := by
+              omega
+            refine ⟨v.a.payDenom, 0, by rw [move_zero], fun w => ⟨Or.inl rfl, ?_⟩⟩
+            rw [htp w, h0]
+      | fixed =>
+        rw [hbt] at hin
+        simp only [pure_ok] at hin
+        subst hin
+        refine ⟨v.a.payDenom, 0, by rw [move_zero], fun w => ?_⟩
+        rcases (w.bids bid hmem).batch hty with ⟨h1, _⟩ | ⟨h1, _⟩ <;> (rw [hbt] at h1; cases h1)
+    obtain ⟨dd, D, h1, hD⟩ := key
+    obtain ⟨h2, _⟩ := hook_ok hhk
+    rw [← hbid']
+    refine good_of_set hv (by rw [setView_views, h2, h1]) ?_ ?_
+    · intro x j hx hj d
+      rw [setView_bank, h2, h1]
+      simp only [move_apply]
+      simp [esc_ne_pay hx hj, esc_ne_user hx]
+    · intro w
+      obtain ⟨hdd, hD⟩ := hD w
+      refine ⟨rfl, rfl, ?_, ?_, ?_⟩
+      · intro d; left
+        simp only [slackSell, owedSell, setView_bank, h2, h1, move_apply]
+        simp
+      · intro d; left
+        have hr : reservedTotal { v with bids := List.map (fun b => if (b.id == bidId) = true then bid' else b) v.bids } =
+            reservedTotal v + D := by
+          unfold reservedTotal
+          simp only
+          rw [sum_map_replace _ bidId bid bid' v.bids (bidIds_pairwise w.bidIds) hmem hbid, hD]
+          omega
+        simp only [slackPay, owedPay, setView_bank, h2, h1, move_apply, hst, hr]
+        rcases hdd with hdd | hdd
+        · subst hdd
+          by_cases hd : d = v.a.payDenom
+          · simp [hd]; omega
+          · simp [hd]
+        · subst hdd
+          simp
+      · intro d; left
+        simp only [slackVest, owedVest, setView_bank, h2, h1, move_apply, hst]
+        simp
+  · simp only [bind_ok, fail_ok] at h
+    obtain ⟨_, h, _⟩ := h
+    exact h.elim
+
+/-! ### allowed-bidder API -/
+
+theorem add_good {c c' : Ctx} {aid : Nat} {abs : List AllowedArg}
+    (h : addAllowedBidders c aid abs = .ok c') : Good aid c.s c'.s := by
+  unfold addAllowedBidders at h
+  simp only [bind_ok, check_ok, view_ok_iff, pure_ok] at h
+  obtain ⟨_, _, v, hv, c1, hhk, l, _, rfl⟩ := h
+  obtain ⟨h1, _⟩ := hook_ok hhk
+  refine good_of_set hv (by rw [setView_views, h1]) ?_ ?_
+  · intro x j _ _ d; rw [setView_bank, h1]
+  · intro _
+    exact keeps_of_eq (fun x _ d => by rw [setView_bank, h1]) rfl rfl rfl rfl rfl rfl
+
+theorem upd_good {c c' : Ctx} {aid : Nat} {bidder : Acc} {cap : Int}
+    (h : updateAllowedBidder c aid bidder cap = .ok c') : Good aid c.s c'.s := by
+  unfold updateAllowedBidder at h
+  simp only [bind_ok, check_ok, view_ok_iff, pure_ok] at h
+  obtain ⟨v, hv, _, _, _, _, c1, hhk, rfl⟩ := h
+  obtain ⟨h1, _⟩ := hook_ok hhk
+  refine good_of_set hv (by rw [setView_views, h1]) ?_ ?_
+  · intro x j _ _ d; rw [setView_bank, h1]
+  · intro _
+    exact keeps_of_eq (fun x _ d => by rw [setView_bank, h1]) rfl rfl rfl rfl rfl rfl
+
+/-! ### CreateAuction -/
+
+theorem create_spec {c c' : Ctx} {m : CreateMsg} (h : createAuction c m = .ok c') :
+    ∃ (b' : Bank) (v : AView), c'.s = { c.s with bank := b', views := c.s.views ++ [v] } ∧
+      (∀ x j, x.esc = some j → j ≠ c.s.views.length → ∀ d, b' x d = c.s.bank x d) ∧
+      ∀ d, slackSell c'.s c.s.views.length v d = c.s.bank (.sell c.s.views.length) d ∧
+        slackPay c'.s c.s.views.length v d = c.s.bank (.pay c.s.views.length) d ∧
+        slackVest c'.s c.s.views.length v d = c.s.bank (.vest c.s.views.length) d := by
+  unfold createAuction at h
+  simp only [bind_ok, check_ok, pure_ok] at h
+  obtain ⟨_, _, _, _, _, _, c1, hfee, coins, hmk, c2, hbc, c3, hhk, hhk2⟩ := h
+  obtain ⟨b1, h1, hb1⟩ := fee_core hfee
+  obtain ⟨_, h2⟩ := send_mk hmk hbc
+  obtain ⟨h3, _⟩ := hook_ok hhk
+  obtain ⟨h4, _⟩ := hook_ok hhk2
+  simp only at h4
+  rw [h4, h3, h2, h1]
+  refine ⟨_, _, rfl, ?_, ?_⟩
+  · intro x j hx hj d
+    simp only [move_apply]
+    simp [esc_ne_sell hx hj, esc_ne_user hx, hb1 x j hx d]
+  · intro d
+    refine ⟨?_, ?_, ?_⟩
+    · simp only [slackSell, owedSell, move_apply, hb1 (.sell _) _ rfl d]
+      by_cases hnow : m.startTime ≤ c.s.now <;> by_cases hd : d = m.sellDenom <;> simp [hnow, hd]
+    · simp only [slackPay, owedPay, reservedTotal, move_apply, hb1 (.pay _) _ rfl d]
+      simp
+    · simp only [slackVest, owedVest, move_apply, hb1 (.vest _) _ rfl d]
+      by_cases hnow : m.startTime ≤ c.s.now <;> simp [hnow]
+
+/-! ### the message server -/
+
+theorem deliver_cases {c c' : Ctx} {m : Msg} (h : deliver c m = .ok c') :
+    (∃ i, Good i c.s c'.s) ∨ (∃ m', createAuction c m' = .ok c') ∨
+    (c'.s.views = c.s.views ∧ c'.s.bank = c.s.bank) := by
+  unfold deliver at h
+  simp only [bind_ok, check_ok] at h
+  obtain ⟨_, _, h⟩ := h
+  cases m with
+  | create m' => exact Or.inr (Or.inl ⟨m', h⟩)
+  | cancel signer aid => exact Or.inl ⟨aid, cancel_good h⟩
+  | place bidder aid t price denom amt =>
+    cases t with
+    | none => exact (fail_ok.mp h).elim
+    | some t => exact Or.inl ⟨aid, place_good h⟩
+  | modify bidder aid bidId price denom amt => exact Or.inl ⟨aid, modify_good h⟩
+  | addAllowed aid ab =>
+    simp only [handle, bind_ok, check_ok] at h
+    obtain ⟨_, _, h⟩ := h
+    exact Or.inl ⟨aid, add_good h⟩
+  | updateParams signer p =>
+    simp only [handle, bind_ok, check_ok, pure_ok] at h
+    obtain ⟨_, _, _, _, _, _, rfl⟩ := h
+    exact Or.inr (Or.inr ⟨rfl, rfl⟩)
 
 end Fundraising
